@@ -348,9 +348,56 @@ func onlyF1rec(got, want []*Node, refs [][]*Node) bool {
 
 var ctors = []string{"base", "batch", "dynamic", "streaming", "streamingDynamic"}
 
+// retypeOne changes the BSON type of one integer-like metric leaf (int32, int64, bool, datetime) to another of them, in place:
+// same keys, same metric count, another type - a sample the collectors refuse (a chunk records each type once)
+func retypeOne(rng *rand.Rand, nodes []*Node) bool {
+	var leaves []*Node
+	var walk func(ns []*Node)
+	walk = func(ns []*Node) {
+		for _, n := range ns {
+			switch n.Tag {
+			case 0x03, 0x04:
+				walk(n.Kids)
+			case 0x10, 0x12, 0x08, 0x09:
+				leaves = append(leaves, n)
+			}
+		}
+	}
+	walk(nodes)
+	if len(leaves) == 0 {
+		return false
+	}
+	l := leaves[rng.Intn(len(leaves))]
+	tags := []byte{0x10, 0x12, 0x08, 0x09}
+	t := tags[rng.Intn(4)]
+	for t == l.Tag {
+		t = tags[rng.Intn(4)]
+	}
+	l.Tag = t
+	switch t {
+	case 0x10:
+		l.Raw = u32(uint32(1 + rng.Intn(5)))
+	case 0x08:
+		l.Raw = []byte{byte(rng.Intn(2))}
+	default:
+		l.Raw = u64(uint64(1 + rng.Intn(5)))
+	}
+	return true
+}
+
 func coreLine(rng *rand.Rand, ctor string, n int, schema []*Schema, count int) string {
 	var hs []string
+	retypeAt := -1
+	if count > 1 && rng.Intn(6) == 0 {
+		retypeAt = 1 + rng.Intn(count-1)
+	}
 	for i := 0; i < count; i++ {
+		if i == retypeAt {
+			d := instantiate(rng, schema, i)
+			if retypeOne(rng, d) {
+				hs = append(hs, hx(docBytes(d)))
+			}
+		}
 		hs = append(hs, hx(docBytes(instantiate(rng, schema, i))))
 		if i+1 < count && rng.Intn(12) == 0 {
 			hs = append(hs, "R") // an intermediate Resolve
